@@ -28,7 +28,7 @@ import z3
 
 from . import overlay as ov
 
-UNROLL = 2          # visits of a block per path
+UNROLL = int(os.environ.get("VERIF_MIR_UNROLL", "2"))          # visits of a block per path (3 in the thorough tier)
 MAX_STATES = 200000
 
 INT_W = {"usize": 64, "isize": 64, "u64": 64, "i64": 64, "u32": 32, "i32": 32, "u16": 16, "i16": 16,
